@@ -84,12 +84,20 @@ class Wiring:
             if any(scen.decide(f) is False for f in lp.src.filters):
                 continue
             body = scen.simplify(lp.body)
-            for st in statements_of(body):
-                ln = parse_link(st, lp.where)
-                if ln is not None:
-                    out.append(ln)
-                elif any(t[0] == 'id' and t[1] in ('in', 'out') for t in st) and any(t == ('p', '=') for t in st):
-                    problems.append(f'statement not recognised as a link: {toks_text(st)[:120]}')
+            # a link text that differs between events with and without parameters (beyond the optional parameter
+            # list) is judged once for each of the two cases
+            bodies = [body]
+            if _has_formals_alt(body):
+                bodies = [_resolve_formals_alt(body, True), _resolve_formals_alt(body, False)]
+            for bi, bd in enumerate(bodies):
+                for st in statements_of(bd):
+                    ln = parse_link(st, lp.where)
+                    if ln is not None:
+                        if len(bodies) == 2:
+                            ln.variant = 'events with parameters' if bi == 0 else 'events without parameters'
+                        out.append(ln)
+                    elif any(t[0] == 'id' and t[1] in ('in', 'out') for t in st) and any(t == ('p', '=') for t in st):
+                        problems.append(f'statement not recognised as a link: {toks_text(st)[:120]}')
         return out, problems
 
     def port_statements(self, entry: str, kind: str, val: Any = None, **scen_kw) -> Tuple[List[Tuple[List[tuple], Sym]], List[str]]:
@@ -127,6 +135,52 @@ class Wiring:
             if fr.kind == 'rep' and is_port_src(fr.src):
                 return fr.src.var
         return None
+
+
+def _formals_cond(c: Cond) -> Optional[bool]:
+    """polarity when c is (the negation of) `the event has formals`, else None."""
+    if c.op == 'not':
+        r = _formals_cond(c.args[0])
+        return None if r is None else not r
+    if c.op == 'nonempty' and isinstance(c.args[0], Src) and isinstance(c.args[0].base, Sym) and \
+            c.args[0].base.path[-3:] == ('signature', 'formals', 'elements') and not c.args[0].filters:
+        return True
+    if c.op == 'truthy' and isinstance(c.args[0], Sym) and c.args[0].path[-3:] == ('signature', 'formals', 'elements'):
+        return True
+    return None
+
+
+def _is_formals_alt(p) -> bool:
+    from ..template import AltS
+    return isinstance(p, AltS) and _formals_cond(p.cond) is not None and bool(p.a.parts) and bool(p.b.parts)
+
+
+def _has_formals_alt(s: TStr) -> bool:
+    from ..template import AltS, RepS
+    for p in s.parts:
+        if _is_formals_alt(p):
+            return True
+        if isinstance(p, AltS) and (_has_formals_alt(p.a) or _has_formals_alt(p.b)):
+            return True
+        if isinstance(p, RepS) and _has_formals_alt(p.elem):
+            return True
+    return False
+
+
+def _resolve_formals_alt(s: TStr, has_formals: bool) -> TStr:
+    from ..template import AltS, RepS
+    out = TStr()
+    for p in s.parts:
+        if _is_formals_alt(p):
+            take_a = _formals_cond(p.cond) == has_formals
+            out = out + _resolve_formals_alt(p.a if take_a else p.b, has_formals)
+        elif isinstance(p, AltS):
+            out = out + TStr([AltS(p.cond, _resolve_formals_alt(p.a, has_formals), _resolve_formals_alt(p.b, has_formals))])
+        elif isinstance(p, RepS):
+            out = out + TStr([RepS(p.sep, _resolve_formals_alt(p.elem, has_formals), p.src)])
+        else:
+            out = out + TStr([p])
+    return out
 
 
 def build_wiring(ctx, entries=('create_constructor', 'create_cpp_port_helpers')) -> Wiring:
